@@ -8,12 +8,16 @@ check('C12', 'proof',
       'pairs, charge rule of every non-zero entry, need_JW flags vs (anti)commutation with JW.  Unbounded theorems about the hand-written model '
       'of terms.order_combine_term (bubble sort: sorted, permutation, stable, sign = parity of fermionic inversions) and of the JW strings put into '
       'an MPO term (site-wise equal, up to JW^2=1 / JW f=-f JW, to the ordered product of Jordan-Wigner transformed operators; collected signs = '
-      'overall_sign), and the canonical anticommutation relations of product operators on chains of any length.  The model is run (vm_compute) '
-      'against order_combine_term / multi_coupling_term_handle_JW on ~1600 random terms; the exported tables are re-imported and compared with '
+      'overall_sign), the loop of multi_coupling_term_handle_JW versus that closed form for every term (combined term strictly ascending, raises iff '
+      'odd parity, flags and strings read off the output equal jw_right on every site, the per-case check strings_consistent always holds: '
+      'T12_handle_JW_closed_form), the two-site coupling_term_handle_JW (raises iff exactly one operator needs a string, agrees with the multi-site '
+      'handler, words = Jordan-Wigner product with sign +1: T12_coupling_JW), '
+      'and the canonical anticommutation relations of product operators on chains of any length.  The model is run (vm_compute) '
+      'against order_combine_term / multi_coupling_term_handle_JW (and coupling_term_handle_JW on the two-site ones) on ~1600 random terms; the exported tables are re-imported and compared with '
       'site.get_op().to_ndarray(); dense numpy oracles written from the documentation check tables, terms, TermList->MPO for all pairs (and random '
       'quadruples) of fermionic operators on chains <= 6, GroupedSite of 2-3 heterogeneous sites x 3 charge policies, correlation_function(autoJW).',
       'Trusted: Coq kernel+VM, the exporter (float -> exact form with tolerance 1e-9/1e-13 for irrational entries), harness and numpy oracle. '
-      'Algebra theorems for irrational tables are certificates over squared entries.  Not in Coq: GroupedSite, set_common_charges, MPOGraph, the '
-      'link handle_jw <-> closed form jw_right is checked per generated case, not proved; explicit JW/JWu/JWd factors inside terms are excluded '
+      'Algebra theorems for irrational tables are certificates over squared entries.  Not in Coq: GroupedSite, set_common_charges, MPOGraph; '
+      'explicit JW/JWu/JWd factors inside terms are excluded '
       '(their need_JW flag is bookkeeping).  Known findings F17, F18.',
       'Coq proof over the regenerated table and over all terms + differential correspondence + dense oracle', '5.C12')
